@@ -22,13 +22,22 @@ Decided (DESIGN.md section 5, C06):
            M3-erase-is-consumed-prefix     the erased prefix is `window begin - string begin` or the amount the caller ensured
            M4-ensure-pop-paired            (PBF) ensure(n) ... pop(n) pairwise with the same n, reads of the carry-over between
                                            them use the same n, no read after the pop
-           M5-refill-until-needed          the refill loop pops pieces while `carry.size() < needed`
+           M5-refill-until-needed          the refill loop pops pieces while `carry.size() < needed`, and the refill method reports
+                                           success only through an edge on which `size >= needed` (or the window test) holds --
+                                           a loop left by the size test, not a single `if`
            M6-held-bytes-delivered         (OPL) bytes put into the local carry-over reach the consumer on every path to the exit
  clause 3  E1-refill-cycle-tests-end-of-input   every cycle through get_input() passes an edge on which input_done() is false
            E2-failure-exit-guarded-by-end-of-input  "truncated" exits of refill methods are guarded by input_done() == true
  clause 4  X2-xml-final-flag-from-queue-state   the piece itself is fed; isFinal is input_done() evaluated after that pop
            X3-xml-parse-args               XML_Parse(parser, piece.data(), piece.size(), last) exactly once per call
  extra     T1-read-thread-forwards-piece   the read thread forwards every non-empty piece it got from the decompressor
+           F1-fd-read-is-exact             (fd path) a single-shot read (reliable_read / ::read -- a short result is just another
+                                           segmentation) is only called by the wrappers, by Decompressor::read overrides and inside
+                                           an accumulating loop; parser code reads fixed-size fields through read_exactly and
+                                           branches on its result
+           F2-read-exactly-accumulates     read_exactly reports success only with remaining == 0, reads `remaining` bytes at
+                                           buffer + (size - remaining), decreases remaining every iteration, fails only on a
+                                           zero-byte read
 
 NOT decided (left to other technique families): that the result is identical for every segmentation -- i.e. the CR/LF
 logic of the line splitter, which bytes of a piece `line_by_line` hands to parse_line directly, the PBF refill arithmetic,
@@ -48,7 +57,7 @@ KNOWN = [
      'on reading through the stale window.  Concrete input: a valid 17-byte o5m file (7-byte header + one 9-byte node dataset + '
      'nothing else) delivered in one piece: after the type byte fewer than 10 bytes remain, input is done, the consumed prefix is '
      'erased, get_input() yields the end marker, return false with m_data still pointing 8 bytes into the (now shorter) string -> '
-     'decode_varint reads the wrong bytes / past the end: "premature end of file" for a valid file (heap over-read under ASan).'),
+     'decode_varint reads the wrong bytes: "premature end of file" for a valid file (replayed, DESIGN.md section 7 F2).'),
     ('W1-window-rederived', 'osmium::io::detail::O5mParser::m_end',
      'F2, same defect seen from the end pointer: m_end is left pointing behind the erased/relocated string on the `return false` '
      'exit and is then used as the bound of protozero::decode_varint(&m_data, m_end) in decode_data().  A fix must re-derive both '
@@ -64,7 +73,9 @@ EXPLANATION = (
     'tied to consumption, ensure/pop pairing with equal lengths, refill-until-needed loop condition, held bytes reach the consumer); '
     '(3) end-of-input is taken from the queue state: every get_input() cycle passes an input_done()==false edge, every truncated/'
     'EOF exit is guarded by input_done()==true; (4) XML: the popped piece is what is fed, isFinal is input_done() evaluated after '
-    'that pop, XML_Parse gets data()/size()/last of its piece exactly once; plus: the read thread forwards every non-empty piece. '
+    'that pop, XML_Parse gets data()/size()/last of its piece exactly once; plus: the read thread forwards every non-empty piece; '
+    'on the descriptor path single-shot reads are confined to the wrappers, stream producers and the accumulating loop of '
+    'read_exactly, whose loop shape (until remaining == 0, offset size - remaining, failure only on a 0-byte read) is checked. '
     'NOT decided: equality of the delivered objects for every segmentation (CR/LF logic of the line splitter, PBF refill '
     'arithmetic, expat incremental parsing, decompressor piece sizes, thread schedules).')
 ASSUMPTIONS = [
@@ -310,8 +321,44 @@ def _prefix_append(fn, n, pieces):
     return True
 
 
-def _done_pred(n):
-    return _is_call(n, DONE)
+def _done_pred_for(fn):
+    """predicate on condition atoms: the expression is the current value of input_done() -- the call itself, or a local that is
+    only ever initialised from input_done() with no get_input() between that initialisation and the use"""
+    cache = {}
+
+    def var_ok(n):
+        d = n['d']
+        decl = None
+        for x in fn.all_nodes():
+            k = x.get('k')
+            if k == 'decl':
+                for v in x['vars']:
+                    if v['d'] == d:
+                        if decl is not None or not isinstance(v.get('init'), int) or not _is_call(fn.sn(v['init']), DONE):
+                            return False
+                        decl = x['id']
+            elif k == 'assign':
+                l = fn.sn(x['lhs'])
+                if l is not None and l.get('k') == 'var' and l.get('d') == d:
+                    return False
+            elif k == 'unop' and x['op'] in ('++', '--', '&'):
+                s_ = fn.sn(x['sub'])
+                if s_ is not None and s_.get('k') == 'var' and s_.get('d') == d:
+                    return False
+        if decl is None:
+            return False
+        use = n['id']
+        return path_search(fn, decl, lambda e: not isinstance(e, tuple) and _is_call(fn.nodes[e], GET), lambda e: e == use) is None
+
+    def pred(n):
+        if _is_call(n, DONE):
+            return True
+        if n is not None and n.get('k') == 'var' and n.get('vk') == 'local':
+            if n['id'] not in cache:
+                cache[n['id']] = var_ok(n)
+            return cache[n['id']]
+        return False
+    return pred
 
 
 def _empty_pred(fn, carrier):
@@ -587,6 +634,76 @@ def _held_dropped(fn, carrier, target, adders, consumers):
     return None
 
 
+def _success_implies_enough(fn, R, carrier, need, wins):
+    """M5, second half: a refill method may only report success (return true / return normally) on a path that passed an edge on
+    which `carrier.size() >= need` (or `window end - window begin >= need`) is known -- i.e. the refill is a loop whose exit is the
+    size test, not a single `if`."""
+    name = carrier[2]
+    ptrs, begin = set(), set()
+    for w in wins:
+        ptrs |= set(w['ptrs'])
+        begin |= w['begin']
+
+    def is_need(x):
+        return x is not None and x.get('k') == 'var' and x.get('d') == need['d']
+
+    def is_amount(x):
+        hops = 0
+        while x is not None and x.get('k') == 'cast' and hops < 4:
+            x = fn.sn(x['sub'])
+            hops += 1
+        if _is_call(x, prefix=STR) and _short(x['q']) in ('size', 'length') and _str_call_on(fn, x, carrier):
+            return True
+        if x is not None and x.get('k') == 'binop' and x['op'] == '-':
+            l, r = fn.sn(x['lhs']), fn.sn(x['rhs'])
+            return (l is not None and l.get('k') == 'member' and l.get('q') in (ptrs - begin) and
+                    r is not None and r.get('k') == 'member' and r.get('q') in begin)
+        return False
+
+    def enough_edge(b, idx):
+        blk = fn.blocks[b]
+        if 'cond' not in blk or len(blk['succs']) != 2 or blk.get('termcls') == 'SwitchStmt':
+            return False
+        x, neg = _cond_atom(fn, blk['cond'])
+        if x is None or x.get('k') != 'binop' or x['op'] not in ('<', '<=', '>', '>='):
+            return False
+        l, r, op = fn.sn(x['lhs']), fn.sn(x['rhs']), x['op']
+        if is_need(l) and is_amount(r):
+            l, r = r, l
+            op = {'<': '>', '>': '<', '<=': '>=', '>=': '<='}[op]
+        if not (is_amount(l) and is_need(r)):
+            return False
+        val = (idx == 0) != neg          # truth value of `amount op need` on this edge
+        return (op in ('>=', '>') and val) or (op == '<' and not val)
+
+    key = '%s#success-implies-enough' % fn.q
+    if fn.retC == 'bool':
+        def is_enough_test(nid):
+            x = fn.sn(nid)
+            if x is None or x.get('k') != 'binop':
+                return False
+            l, r, op = fn.sn(x['lhs']), fn.sn(x['rhs']), x['op']
+            return (is_amount(l) and is_need(r) and op in ('>=', '>')) or (is_need(l) and is_amount(r) and op in ('<=', '<'))
+        rets = [n for n in fn.all_nodes() if n.get('k') == 'return' and 'sub' in n]
+        rets = [n for n in rets if not is_enough_test(n['sub'])]   # `return size() >= need` is true exactly when enough
+        if any(fn.const_value(n['sub']) not in (0, 1) for n in rets):
+            R.broken('%s: returns a non-constant bool; the success-implies-enough clause of M5 does not understand this shape' % fn.q)
+            return
+        succ = {n['id'] for n in rets if fn.const_value(n['sub']) == 1}
+        fail = {n['id'] for n in rets if fn.const_value(n['sub']) == 0}
+        target = lambda e: e in succ
+    else:
+        fail = set()
+        target = _exit_t
+    wit = path_search(fn, fn.entry, target, lambda e: e in fail or _is_throw(fn, e),
+                      _normal_edges(fn, lambda b, idx, s: not enough_edge(b, idx)), from_block_start=True)
+    R.check(wit is None, 'M5-refill-until-needed', key, fn.site,
+            '%s can report success without `%s.size() >= %s` (or the window test) having been established on that path -- the refill must '
+            'be a loop that is left only through the size test; with a single `if` a request that spans three or more pieces returns '
+            'with too few bytes: %s' % (fn.q, name, need['name'], describe_path(fn, wit)),
+            'success only through an edge asserting %s.size() >= %s' % (name, need['name']))
+
+
 def carry_rules(fb, R, M=None, wins=None):
     M = M or Model(fb)
     if wins is None:
@@ -662,7 +779,7 @@ def carry_rules(fb, R, M=None, wins=None):
                 else:
                     verdict, why = False, 'not one of: append whole piece / append prefix to first line break / erase prefix / capacity'
                 R.check(verdict, 'M1-carry-over-mutation-whitelist', key, site,
-                        '%s.%s in %s: %s' % (name, fn.expr(n['id'])[:90], fn.q, why), why)
+                        '%s in %s: %s' % (fn.expr(n['id'])[:90], fn.q, why), why)
 
                 # ---- M3: erase amount
                 if meth == 'erase' and verdict:
@@ -713,6 +830,7 @@ def carry_rules(fb, R, M=None, wins=None):
                         pi = next((i for i, p in enumerate(fn.params) if p['d'] == r['d']), None)
                         if op == '<' and pi is not None:
                             ensure_methods.setdefault(_ckey(carrier), []).append((fn, pi))
+                        _success_implies_enough(fn, R, carrier, r, [w for w in wins if w['storage'] == carrier[1]])
 
             # ---- M6: local carry-over: held bytes reach the consumer
             if is_local and adders:
@@ -742,8 +860,8 @@ def carry_rules(fb, R, M=None, wins=None):
             mine = {d: pieces[d] for d in bound}
             my_sinks = M.sinks(fn, mine) & sinks
 
-            def edge_ok(b, idx, s, fn=fn):
-                return _edge_value(fn, b, idx, _done_pred) is not True
+            def edge_ok(b, idx, s, fn=fn, dp=_done_pred_for(fn)):
+                return _edge_value(fn, b, idx, dp) is not True
             gid = g['id']
             wit = path_search(fn, gid, lambda e: e == gid or _exit_t(e), lambda e: e in my_sinks or _is_throw(fn, e),
                               _normal_edges(fn, edge_ok))
@@ -874,8 +992,8 @@ def eof_rules(fb, R, M=None):
             key = '%s#get_input-cycle' % fn.q
             cyc = path_search(fn, gid, lambda e: e == gid, lambda e: False, _normal_edges(fn))
 
-            def edge_ok(b, idx, s, fn=fn):
-                return _edge_value(fn, b, idx, _done_pred) is not False
+            def edge_ok(b, idx, s, fn=fn, dp=_done_pred_for(fn)):
+                return _edge_value(fn, b, idx, dp) is not False
             wit = path_search(fn, gid, lambda e: e == gid, lambda e: False, _normal_edges(fn, edge_ok))
             R.check(wit is None, 'E1-refill-cycle-tests-end-of-input', key, fn.loc(gid),
                     'in %s get_input() can be called again without input_done() having been tested false in between (end of input is '
@@ -897,7 +1015,8 @@ def eof_rules(fb, R, M=None):
         for (n, kind) in fails:
             after = any(fn.elem_dominates(g['id'], n['id']) for g in gets)
             key = '%s#%s/%s' % (fn.q, kind, 'after-pop' if after else 'before-pop')
-            ok = any(sense and _is_call(fn.sn(c), DONE) for (c, sense, _b) in guards_of(fn, n['id']))
+            dp = _done_pred_for(fn)
+            ok = any(sense and dp(fn.sn(c)) for (c, sense, _b) in guards_of(fn, n['id']))
             R.check(ok, 'E2-failure-exit-guarded-by-end-of-input', key, fn.loc(n['id']),
                     'the failing exit (%s) of %s is not guarded by input_done() == true: the "truncated / not enough bytes" decision must '
                     'come from the queue state, not from the size or emptiness of a piece' % (kind, fn.q), 'guarded by input_done()')
@@ -1034,6 +1153,169 @@ def thread_rules(fb, R):
                     'end-of-data piece: %s' % (fn.q, describe_path(fn, wit)), 'forwarded whole on every path')
 
 
+# ------------------------------------------------------------------------------------------------ descriptor reads
+
+SINGLE_READ = {'osmium::io::detail::reliable_read', 'read', '_read', 'pread', 'pread64', 'recv'}
+DECOMPRESSOR = 'osmium::io::Decompressor'
+
+
+def fd_rules(fb, R):
+    """A read(2) may return fewer bytes than asked for (pipes, sockets): how many arrive per call is a segmentation of the stream.
+    F1: a single-shot read is only called by the single-shot wrappers themselves, by stream producers (Decompressor::read
+    overrides, whose short result simply is a shorter piece) and by accumulating readers; parser code reads fixed-size fields from a
+    descriptor only through an accumulating reader and branches on its result.
+    F2: an accumulating reader loops until the remaining count is zero, reads at offset size - remaining, and fails only on a
+    zero-byte read."""
+    decomp = {r.q for r in fb.derived_from(DECOMPRESSOR)} | {DECOMPRESSOR}
+    accum = {}
+    for fn in fb.functions:
+        if not fn.has_cfg or ('/io/' not in fn.file and '/selftest/positive/' not in fn.file):
+            continue
+        calls = [n for n in fn.all_nodes() if n.get('k') == 'call' and n.get('q') in SINGLE_READ and not n.get('recv')]
+        if not calls:
+            continue
+        for c in calls:
+            key = '%s#single-read' % fn.q
+            site = fn.loc(c['id'])
+            if fn.q in SINGLE_READ:
+                R.ok('F1-fd-read-is-exact', key, site, 'single-shot wrapper')
+                continue
+            if fn.cls in decomp and fn.name == 'read':
+                R.ok('F1-fd-read-is-exact', key, site, 'stream producer: a short read is a shorter piece')
+                continue
+            inloop = [l for l in fn.loops if fn.in_range(c['id'], l['b'], l['e'])]
+            if not inloop:
+                R.bad('F1-fd-read-is-exact', key, site,
+                      '%s calls the single-shot %s outside an accumulating loop: a short read (legitimate on a pipe, i.e. just another '
+                      'segmentation of the byte stream) is then taken for truncation / a complete field; fixed-size fields must be read '
+                      'with read_exactly' % (fn.q, c['q']))
+                continue
+            R.ok('F1-fd-read-is-exact', key, site, 'inside an accumulating loop (shape checked by F2)')
+            accum[fn.usr] = fn
+            _accumulating_reader(fn, c, R)
+    # parser code: descriptor reads go through an accumulating reader whose result decides
+    parsers = {r.q for r in fb.derived_from(PARSER)}
+    for fn in fb.functions:
+        if not fn.has_cfg or fn.cls not in parsers:
+            continue
+        for c in [n for n in fn.all_nodes() if n.get('k') == 'call' and n.get('u') in accum]:
+            a = _real_args(fn, c)
+            key = '%s#fd-read(%s)' % (fn.q, fn.expr(a[-1]) if a else '')
+            tested = False
+            for b in fn.blocks.values():
+                if 'cond' in b and len(b['succs']) == 2:
+                    atom, _neg = _cond_atom(fn, b['cond'])
+                    if atom is not None and atom['id'] == c['id']:
+                        tested = True
+            R.check(tested, 'F1-fd-read-is-exact', key, fn.loc(c['id']),
+                    '%s ignores whether %s delivered all requested bytes' % (fn.q, _short(c['q'])), 'exact read, result branches')
+
+
+def _accumulating_reader(fn, c, R):
+    base = fn.q
+    pm = fn.parent_map()
+    # result variable
+    res = None
+    pn, _ch = _parent_skip(fn, c['id'])
+    if pn is not None and pn.get('k') == 'decl':
+        for v in pn['vars']:
+            if isinstance(v.get('init'), int) and c['id'] in fn.subtree(v['init']):
+                res = v['d']
+    elif pn is not None and pn.get('k') == 'assign' and pn['op'] == '=':
+        l = fn.sn(pn['lhs'])
+        res = l['d'] if l is not None and l.get('k') == 'var' else None
+    # remaining counter: local with `rem -= <res>`
+    rem, dec = None, None
+    for n in fn.all_nodes():
+        if n.get('k') == 'assign' and n['op'] == '-=':
+            l = fn.sn(n['lhs'])
+            r = n['rhs']
+            rs = fn.sn(r)
+            hops = 0
+            while rs is not None and rs.get('k') == 'cast' and hops < 4:
+                rs = fn.sn(rs['sub'])
+                hops += 1
+            if l is not None and l.get('k') == 'var' and rs is not None and rs.get('k') == 'var' and rs.get('d') == res:
+                rem, dec = l['d'], n['id']
+    if res is None or rem is None:
+        R.broken('%s: accumulating reader of unknown shape (no `remaining -= <result of the read>` found)' % base)
+        return
+    # the size the counter starts from
+    total = None
+    for n in fn.all_nodes():
+        if n.get('k') == 'decl':
+            for v in n['vars']:
+                if v['d'] == rem and isinstance(v.get('init'), int):
+                    x = fn.sn(v['init'])
+                    if x is not None and x.get('k') == 'var' and x.get('vk') == 'param':
+                        total = x['d']
+
+    def is_var(x, d):
+        return x is not None and x.get('k') == 'var' and x.get('d') == d
+
+    def zero_edge(b, idx):
+        """edge on which remaining == 0 is known"""
+        blk = fn.blocks[b]
+        if 'cond' not in blk or len(blk['succs']) != 2 or blk.get('termcls') == 'SwitchStmt':
+            return False
+        x, neg = _cond_atom(fn, blk['cond'])
+        val = (idx == 0) != neg
+        if x is not None and x.get('k') == 'binop':
+            l, r = fn.sn(x['lhs']), fn.sn(x['rhs'])
+            if is_var(r, rem) and fn.const_value(x['lhs']) == 0:
+                l, r = r, l
+                op = {'<': '>', '>': '<', '<=': '>=', '>=': '<=', '==': '==', '!=': '!='}.get(x['op'])
+            else:
+                op = x['op']
+                if not (is_var(l, rem) and fn.const_value(x['rhs']) == 0):
+                    return False
+            return (op in ('>', '!=') and not val) or (op in ('==', '<=') and val)
+        if is_var(x, rem):
+            return not val
+        return False
+
+    rets = [n for n in fn.all_nodes() if n.get('k') == 'return' and 'sub' in n]
+    if fn.retC == 'bool' and all(fn.const_value(n['sub']) in (0, 1) for n in rets):
+        succ = {n['id'] for n in rets if fn.const_value(n['sub']) == 1}
+        fail = [n for n in rets if fn.const_value(n['sub']) == 0]
+        target = lambda e: e in succ
+    else:
+        fail = []
+        target = _exit_t
+    failids = {n['id'] for n in fail}
+    wit = path_search(fn, fn.entry, target, lambda e: e in failids or _is_throw(fn, e),
+                      _normal_edges(fn, lambda b, idx, s: not zero_edge(b, idx)), from_block_start=True)
+    R.check(wit is None, 'F2-read-exactly-accumulates', base + '#until-complete', fn.site,
+            '%s can report success while bytes are still missing (it must loop until the remaining count is zero; a single read is '
+            'one possible segmentation only): %s' % (base, describe_path(fn, wit)), 'success only through an edge asserting remaining == 0')
+    # offset and count of the read
+    a = _real_args(fn, c)
+    cnt_ok = any(is_var(fn.sn(x), rem) for x in a)
+    off_ok = False
+    for x in a:
+        sx = fn.sn(x)
+        if sx is not None and sx.get('k') == 'binop' and sx['op'] == '+':
+            p, o = fn.sn(sx['lhs']), fn.sn(sx['rhs'])
+            if p is not None and p.get('k') == 'var' and p.get('vk') == 'param' and o is not None and o.get('k') == 'binop' and o['op'] == '-':
+                if total is not None and is_var(fn.sn(o['lhs']), total) and is_var(fn.sn(o['rhs']), rem):
+                    off_ok = True
+    cyc = path_search(fn, c['id'], lambda e: e == c['id'], lambda e: e == dec, _normal_edges(fn))
+    R.check(cnt_ok and off_ok and cyc is None, 'F2-read-exactly-accumulates', base + '#appends-at-offset', fn.loc(c['id']),
+            '%s: each read must ask for the remaining count and store at buffer + (size - remaining), and every iteration must decrease '
+            'the remaining count by the bytes read (%s)' % (base, fn.expr(c['id'])[:100]), 'reads remaining bytes at offset size - remaining')
+    # failure only on a zero-byte read
+    for n in fail or [n for n in fn.all_nodes() if n.get('k') == 'throw']:
+        ok = False
+        for (cnd, sense, _b) in guards_of(fn, n['id']):
+            x = fn.sn(cnd)
+            if x is not None and x.get('k') == 'binop' and x['op'] in ('==', '<=') and sense and \
+                    is_var(fn.sn(x['lhs']), res) and fn.const_value(x['rhs']) == 0:
+                ok = True
+        R.check(ok, 'F2-read-exactly-accumulates', base + '#fails-only-at-eof', fn.loc(n['id']),
+                '%s: the failing exit is not guarded by `<bytes read> == 0` (a short but non-empty read is not end of file)' % base,
+                'fails only when a read returned 0 bytes')
+
+
 # ------------------------------------------------------------------------------------------------ driver
 
 def all_rules(fb, R):
@@ -1045,6 +1327,7 @@ def all_rules(fb, R):
     eof_rules(fb, R, M)
     xml_rules(fb, R, M)
     thread_rules(fb, R)
+    fd_rules(fb, R)
     return M, wins
 
 
@@ -1067,13 +1350,15 @@ def run(ctx):
     R.expect('M2-piece-kept', 4)                     # PBF, o5m, OPL, XML pops
     R.expect('M3-erase-is-consumed-prefix', 2)       # o5m erase(0, m_data - data()), PBF erase(0, size)
     R.expect('M4-ensure-pop-paired', 6)              # 3 ensure sites + 3 pop sites in PBFParser
-    R.expect('M5-refill-until-needed', 2)            # PBF ensure_available_in_input_queue, o5m ensure_bytes_available
+    R.expect('M5-refill-until-needed', 4)            # PBF ensure_available_in_input_queue, o5m ensure_bytes_available: condition + success-implies-enough
     R.expect('M6-held-bytes-delivered', 1)           # line_by_line rest
     R.expect('E1-refill-cycle-tests-end-of-input', 4)
     R.expect('E2-failure-exit-guarded-by-end-of-input', 3)  # PBF throw; o5m return false x2
     R.expect('X2-xml-final-flag-from-queue-state', 1)
     R.expect('X3-xml-parse-args', 1)
     R.expect('T1-read-thread-forwards-piece', 1)
+    R.expect('F1-fd-read-is-exact', 5)               # reliable_read->read, read_exactly->reliable_read, NoDecompressor::read, 2 PBF fd reads
+    R.expect('F2-read-exactly-accumulates', 3)       # read_exactly: until-complete, appends-at-offset, fails-only-at-eof
 
 
 def _selftest(fb, R):
@@ -1084,4 +1369,4 @@ SELFTESTS = [(r, 'c06_chunking.cpp', _selftest) for r in (
     'W1-window-rederived', 'W2-refill-result-decides', 'W3-no-stale-local', 'M1-carry-over-mutation-whitelist', 'M2-piece-kept',
     'M3-erase-is-consumed-prefix', 'M4-ensure-pop-paired', 'M5-refill-until-needed', 'M6-held-bytes-delivered',
     'E1-refill-cycle-tests-end-of-input', 'E2-failure-exit-guarded-by-end-of-input', 'X2-xml-final-flag-from-queue-state',
-    'X3-xml-parse-args', 'T1-read-thread-forwards-piece')]
+    'X3-xml-parse-args', 'T1-read-thread-forwards-piece', 'F1-fd-read-is-exact', 'F2-read-exactly-accumulates')]
